@@ -24,22 +24,23 @@ type violation struct {
 }
 
 type Report struct {
-	v        *Verifier
-	prop     string
-	tier     string
-	seed     int
-	pc       *PropConfig
-	runs     []*funcRun
-	obls     []*Obligation
-	viol     []*violation
-	broken   []string // machinery failures (vacuity, tool errors)
-	nDis     int
-	nObl     int
-	bySolver map[string]int
-	solverT  float64
-	maxT     float64
-	knownOut []string
-	bounded  []map[string]interface{}
+	v            *Verifier
+	prop         string
+	tier         string
+	seed         int
+	pc           *PropConfig
+	runs         []*funcRun
+	obls         []*Obligation
+	viol         []*violation
+	broken       []string // machinery failures (vacuity, tool errors)
+	unreproduced []string // bounded-harness failures that did not come back on re-run
+	nDis         int
+	nObl         int
+	bySolver     map[string]int
+	solverT      float64
+	maxT         float64
+	knownOut     []string
+	bounded      []map[string]interface{}
 }
 
 func newReport(v *Verifier, prop, tier string, seed int, pc *PropConfig) *Report {
@@ -312,6 +313,7 @@ func (r *Report) writeEvidence(wall float64, nViol int) {
 		assumptions = append(assumptions, "unspecified callee/construct (result unconstrained, reachable heap havocked): "+k)
 	}
 	assumptions = append(assumptions, notes...)
+	assumptions = append(assumptions, r.unreproduced...)
 	for _, rb := range r.v.rebound {
 		assumptions = append(assumptions, "renamed variable rebound (obligations still generated from the current code): "+rb)
 	}
@@ -385,11 +387,43 @@ func (r *Report) runBounded(dir string) {
 		cmd := exec.Command("go", "test", "-overlay", ovf, "-v", "-vet=off", "-count=1", "-timeout", "1500s", "-run", "^"+b.Run+"$", ".")
 		cmd.Dir = pkgDir
 		cmd.Env = append(os.Environ(), "GOFLAGS=-mod=mod", "GOPROXY=off", "GOSUMDB=off", "GOTOOLCHAIN=local", "GOWORK=off", fmt.Sprintf("VERIF_BOUND=%d", bound), fmt.Sprintf("VERIF_SEED=%d", r.seed))
-		t0 := time.Now()
-		o, _ := cmd.CombinedOutput()
-		secs := time.Since(t0).Seconds()
-		m := regexp.MustCompile(`VERIF-BOUNDED name=(\S+) bound=(\d+) cases=(\d+) failures=(\d+) first=(.*)`).FindStringSubmatch(string(o))
+		re := regexp.MustCompile(`VERIF-BOUNDED name=(\S+) bound=(\d+) cases=(\d+) failures=(\d+) first=(.*)`)
+		runOnce := func() ([]byte, float64) {
+			c := exec.Command(cmd.Args[0], cmd.Args[1:]...)
+			c.Dir, c.Env = cmd.Dir, cmd.Env
+			t0 := time.Now()
+			out, _ := c.CombinedOutput()
+			return out, time.Since(t0).Seconds()
+		}
+		o, secs := runOnce()
+		m := re.FindStringSubmatch(string(o))
 		rec := map[string]interface{}{"name": b.Name, "what": b.What, "bound": bound, "label": "bounded (not a proof)", "wall_s": round2(secs)}
+		// A failing case must REPRODUCE: the harnesses are deterministic, so a genuine failure fails again.  A failure
+		// that does not come back in any of two further runs (seen once in several hundred runs of the C matcher's
+		// harness under heavy load, DESIGN 12.5) is reported as a note, not as a violation.
+		if failed := func(mm []string, out []byte) bool {
+			if mm == nil {
+				return strings.Contains(string(out), "panic:") || strings.Contains(string(out), "--- FAIL")
+			}
+			return mm[4] != "0"
+		}; failed(m, o) {
+			reproduced := true
+			for k := 0; k < 2 && reproduced; k++ {
+				o2, _ := runOnce()
+				m2 := re.FindStringSubmatch(string(o2))
+				if m2 != nil && m2[4] == "0" {
+					reproduced = false
+					first := ""
+					if m != nil {
+						first = m[5]
+					}
+					note := fmt.Sprintf("bounded harness %s: one run reported a failing case (%s) that did NOT reproduce when the harness was run again; not counted as a violation", b.Name, first)
+					fmt.Println("NOTE:", note)
+					r.unreproduced = append(r.unreproduced, note)
+					o, m = o2, m2
+				}
+			}
+		}
 		if m == nil {
 			txt := string(o)
 			if len(txt) > 3000 {
